@@ -6,7 +6,7 @@
    was written to the datastore. *)
 From Coq Require Import List NArith Bool Arith Lia.
 From Verif.Common Require Import Cas.
-From Verif.C19 Require Import Model BlockLemmas.
+From Verif.C19 Require Import Model ModelV BlockLemmas.
 Import ListNotations.
 
 (* ------------------------------------------------------------------ instantiation of the CAS framework *)
@@ -149,6 +149,7 @@ Qed.
 
 Section OpsSafe.
   Variable cf : config.
+  Variable fx : bool.   (* variant of claimAffineBlock, see ModelV.v: everything below holds for both *)
 
   Definition Pips (h tag : N) (H : hist) (r : res (list N)) : Prop :=
     match r with inl ips => Forall (recorded H h tag) ips | inr _ => True end.
@@ -193,20 +194,24 @@ Section OpsSafe.
     - intros o j. rewrite nth_repeat. discriminate.
   Qed.
 
-  Lemma claim_affine_block_safe H host c affrev : safe H (claim_affine_block cf host c affrev) (Pblk c).
+  Lemma claim_affine_block_safe H host c affrev : safe H (claim_affine_block_v cf fx host c affrev) (Pblk c).
   Proof.
-    unfold claim_affine_block. sb safe_create_block; [apply I_b_new_block | reflexivity |].
+    unfold claim_affine_block_v. sb safe_create_block; [apply I_b_new_block | reflexivity |].
     destruct r as [[b rev]|e].
     - sb confirm_aff_safe. destruct r; sret. eapply known_mono; eauto.
     - destruct e; try sret. sb safe_get_block. destruct r as [[b rev]|e]; [|sret].
       destruct (optN_eqb (bk_aff b) (Some host)).
-      + sb confirm_aff_safe. destruct r; sret. eapply known_mono; eauto.
+      + destruct fx.
+        * sb safe_update_block; [exact P0 | apply btrans_refl |].
+          destruct r as [[b2 rev2]|e]; [|sret].
+          sb confirm_aff_safe. destruct r; sret. destruct P1 as [KN _]. eapply known_mono; eauto.
+        * sb confirm_aff_safe. destruct r; sret. eapply known_mono; eauto.
       + sb safe_delete_aff. sret.
   Qed.
 
-  Lemma get_block_from_aff_safe H host c aff : safe H (get_block_from_aff cf host c aff) (Pblk c).
+  Lemma get_block_from_aff_safe H host c aff : safe H (get_block_from_aff_v cf fx host c aff) (Pblk c).
   Proof.
-    unfold get_block_from_aff. destruct aff as [st affrev].
+    unfold get_block_from_aff_v. destruct aff as [st affrev].
     sb safe_get_block. destruct r as [[b brev]|e].
     - destruct (negb (optN_eqb (bk_aff b) (Some host))).
       + sb safe_delete_aff. destruct r; sret.
@@ -228,7 +233,7 @@ Section OpsSafe.
   Definition Popt (c : N) (H : hist) (r : option (block * N)) : Prop :=
     match r with Some (b, rev) => known H c b rev | None => True end.
 
-  Lemma try_affine_safe fuel : forall H host c, safe H (try_affine cf fuel host c) (Popt c).
+  Lemma try_affine_safe fuel : forall H host c, safe H (try_affine_v cf fx fuel host c) (Popt c).
   Proof.
     induction fuel as [|f IH]; intros H host c; simpl; [exact I|].
     sb safe_get_aff. destruct r as [aff|e]; [|sret].
@@ -240,7 +245,7 @@ Section OpsSafe.
   Definition Pscan (H : hist) (r : option (block * N * N) * list N) : Prop :=
     match fst r with Some (b, rev, c) => known H c b rev | None => True end.
 
-  Lemma scan_affine_safe rem : forall H host, safe H (scan_affine cf rem host) Pscan.
+  Lemma scan_affine_safe rem : forall H host, safe H (scan_affine_v cf fx rem host) Pscan.
   Proof.
     induction rem as [|c rest IH]; intros H host; simpl; [exact I|].
     sb try_affine_safe. destruct r as [[b rev]|]; [sret | apply IH].
@@ -249,7 +254,7 @@ Section OpsSafe.
   Definition Pclaim (c : N) (H : hist) (r : claim_res) : Prop :=
     match r with CRBlock (b, rev) => known H c b rev | _ => True end.
 
-  Lemma claim_inner_safe fuel : forall H host c, safe H (claim_inner cf fuel host c) (Pclaim c).
+  Lemma claim_inner_safe fuel : forall H host c, safe H (claim_inner_v cf fx fuel host c) (Pclaim c).
   Proof.
     induction fuel as [|f IH]; intros H host c; simpl; [exact I|].
     sb get_pending_aff_safe. destruct r as [aff|e].
@@ -262,7 +267,7 @@ Section OpsSafe.
   Definition Pclaimed (H : hist) (r : res (block * N * N)) : Prop :=
     match r with inl (b, rev, c) => known H c b rev | inr _ => True end.
 
-  Lemma claim_outer_safe fuel : forall H host, safe H (claim_outer cf fuel host) Pclaimed.
+  Lemma claim_outer_safe fuel : forall H host, safe H (claim_outer_v cf fx fuel host) Pclaimed.
   Proof.
     induction fuel as [|f IH]; intros H host; simpl; [exact I|].
     sb find_usable_safe. destruct r as [c|e]; [|sret].
@@ -272,9 +277,9 @@ Section OpsSafe.
   Definition Pfc (H : hist) (r : res (block * N * N * bool) * list N) : Prop :=
     match fst r with inl (b, rev, c, _) => known H c b rev | inr _ => True end.
 
-  Lemma find_or_claim_safe H rem host allow : safe H (find_or_claim cf rem host allow) Pfc.
+  Lemma find_or_claim_safe H rem host allow : safe H (find_or_claim_v cf fx rem host allow) Pfc.
   Proof.
-    unfold find_or_claim. sb scan_affine_safe. destruct r as [[[[b rev] c]|] rest].
+    unfold find_or_claim_v. sb scan_affine_safe. destruct r as [[[[b rev] c]|] rest].
     - sret.
     - destruct (negb allow); [sret|]. destruct (cf_autoalloc cf); [|sret].
       sb claim_outer_safe. destruct r as [[[b rev] c]|e]; sret.
@@ -312,7 +317,7 @@ Section OpsSafe.
     match r with ResIPs ips _ => Forall (recorded H h tag) ips | _ => True end.
 
   Lemma aa_loop_safe fuel : forall H ips rem_aff owned num h tag host,
-    Forall (recorded H h tag) ips -> safe H (aa_loop cf fuel ips rem_aff owned num h tag host) (Pres h tag).
+    Forall (recorded H h tag) ips -> safe H (aa_loop_v cf fx fuel ips rem_aff owned num h tag host) (Pres h tag).
   Proof.
     induction fuel as [|f IH]; intros H ips rem_aff owned num h tag host F; simpl.
     - dif; sret.
@@ -327,9 +332,9 @@ Section OpsSafe.
         sb na_loop_safe; [exact F0|]. sret.
   Qed.
 
-  Lemma auto_assign_safe H host h tag num : safe H (auto_assign cf host h tag num) (Pres h tag).
+  Lemma auto_assign_safe H host h tag num : safe H (auto_assign_v cf fx host h tag num) (Pres h tag).
   Proof.
-    unfold auto_assign. apply safe_act; [exact I|]. intros H' rs E HO OK.
+    unfold auto_assign_v. apply safe_act; [exact I|]. intros H' rs E HO OK.
     destruct rs; try (sret; constructor). apply aa_loop_safe. constructor.
   Qed.
 
@@ -344,7 +349,7 @@ Section OpsSafe.
     match r with ResErr ENone => recorded_at H h tag a | _ => True end.
 
   Lemma assign_ip_cont_safe fuel
-    (IH : forall H host h tag a, safe H (assign_ip_loop cf fuel host h tag a) (Paip h tag a)) :
+    (IH : forall H host h tag a, safe H (assign_ip_loop_v cf fx fuel host h tag a) (Paip h tag a)) :
     forall H host h tag a b brev, known H (block_of cf a) b brev ->
     safe H (match blk_assign b a h tag (cf_strict cf) host with
             | inr e => Ret (ResErr (nz e))
@@ -357,9 +362,9 @@ Section OpsSafe.
                     match w with
                     | inl _ => Ret (ResErr ENone)
                     | inr EConflict =>
-                        if cf_aip_leak cf then assign_ip_loop cf fuel host h tag a
+                        if cf_aip_leak cf then assign_ip_loop_v cf fx fuel host h tag a
                         else u_ <- dec_handle (cf_stale_cache cf) (cf_retries cf) h (block_of cf a) 1 None ;;
-                             assign_ip_loop cf fuel host h tag a
+                             assign_ip_loop_v cf fx fuel host h tag a
                     | inr e => u_ <- dec_handle (cf_stale_cache cf) (cf_retries cf) h (block_of cf a) 1 None ;;
                                Ret (ResErr (nz e))
                     end
@@ -387,7 +392,7 @@ Section OpsSafe.
       dif; [apply IH | sb dec_handle_safe; apply IH].
   Qed.
 
-  Lemma assign_ip_loop_safe fuel : forall H host h tag a, safe H (assign_ip_loop cf fuel host h tag a) (Paip h tag a).
+  Lemma assign_ip_loop_safe fuel : forall H host h tag a, safe H (assign_ip_loop_v cf fx fuel host h tag a) (Paip h tag a).
   Proof.
     induction fuel as [|f IH]; intros H host h tag a; simpl; [exact I|].
     sb safe_get_block. destruct r as [[b brev]|e].
@@ -478,7 +483,7 @@ Section OpsSafe.
     sb release_block_affinity_safe. destruct r as [u|e]; [sret|]. destruct e; try sret. apply IH.
   Qed.
 
-  Lemma claim_aff_loop_safe fuel : forall H host c, safe H (claim_aff_loop cf fuel host c) Ptrue.
+  Lemma claim_aff_loop_safe fuel : forall H host c, safe H (claim_aff_loop_v cf fx fuel host c) Ptrue.
   Proof.
     induction fuel as [|f IH]; intros H host c; simpl; [exact I|].
     sb get_pending_aff_safe. destruct r as [[st affrev]|e].
@@ -494,7 +499,7 @@ Section OpsSafe.
     | _ => True
     end.
 
-  Theorem compile_safe H host o : safe H (compile cf host o) (op_post o).
+  Theorem compile_safe H host o : safe H (compile_v cf fx host o) (op_post o).
   Proof.
     destruct o; simpl.
     - apply auto_assign_safe.
@@ -509,7 +514,7 @@ Section OpsSafe.
   Fixpoint run_ops (host : N) (ops : list op) : prog (list (op * result)) :=
     match ops with
     | [] => Ret []
-    | o :: t => Cas.bind (compile cf host o) (fun r =>
+    | o :: t => Cas.bind (compile_v cf fx host o) (fun r =>
                 Cas.bind (run_ops host t) (fun rest => Ret ((o, r) :: rest)))
     end.
 
@@ -613,28 +618,28 @@ Section OpsSafe.
 End OpsSafe.
 
 (* spelled-out form of the block invariant for the statement of c19_single_owner *)
-Lemma reachable_blocks_single_owner cf clients evs e c b :
-  In e (st_ents (sy_store (@Cas.sys_run key value lopt key_eqb key_ltb lmatch (list (op * result)) (sys0 cf clients) evs))) ->
+Lemma reachable_blocks_single_owner cf fx clients evs e c b :
+  In e (st_ents (sy_store (@Cas.sys_run key value lopt key_eqb key_ltb lmatch (list (op * result)) (sys0 cf fx clients) evs))) ->
   e_key e = KBlock c -> e_val e = VBlock b ->
   bk_cidr b = c /\ NoDup (bk_unalloc b) /\
   (forall o, In o (bk_unalloc b) -> owner_of b o = None) /\
   (forall o x y, owner_of b o = Some x -> owner_of b o = Some y -> x = y).
 Proof.
-  intros Hin EK EV. pose proof (reachable_blocks_wf cf clients evs e Hin) as W. rewrite EK, EV in W.
+  intros Hin EK EV. pose proof (reachable_blocks_wf cf fx clients evs e Hin) as W. rewrite EK, EV in W.
   destruct W as [(ND & FREE & _) C]. split; auto. split; auto. split.
   - intros o Ho. destruct (FREE o Ho) as [FN _]. unfold owner_of. rewrite FN. reflexivity.
   - intros o x y A B. congruence.
 Qed.
 
 (* each block CIDR (hence each address) is held by at most one entry of any reachable datastore *)
-Lemma reachable_one_block_per_cidr cf clients evs e1 e2 c b1 b2 :
-  let s := sy_store (@Cas.sys_run key value lopt key_eqb key_ltb lmatch (list (op * result)) (sys0 cf clients) evs) in
+Lemma reachable_one_block_per_cidr cf fx clients evs e1 e2 c b1 b2 :
+  let s := sy_store (@Cas.sys_run key value lopt key_eqb key_ltb lmatch (list (op * result)) (sys0 cf fx clients) evs) in
   In e1 (st_ents s) -> In e2 (st_ents s) ->
   e_key e1 = KBlock c -> e_val e1 = VBlock b1 -> e_key e2 = KBlock (bk_cidr b2) -> e_val e2 = VBlock b2 ->
   bk_cidr b1 = bk_cidr b2 -> e1 = e2.
 Proof.
   intros s H1 H2 K1 V1 K2 V2 EQ.
-  pose proof (reachable_blocks_wf cf clients evs e1 H1) as W1. rewrite K1, V1 in W1. destruct W1 as [_ C1].
+  pose proof (reachable_blocks_wf cf fx clients evs e1 H1) as W1. rewrite K1, V1 in W1. destruct W1 as [_ C1].
   eapply (@Cas.NoDup_keys_inj key value); eauto.
   - apply (@Cas.sys_run_keys key value lopt key_eqb key_ltb lmatch key_eqb_eq (list (op * result))).
     simpl. constructor.
